@@ -672,3 +672,7 @@ PROPS["C02"]["also_drivers"] = ["C05"]
 # way to drive the real ones is through write_all / read_n and their relatives, i.e. C10's driver
 # (seed C14-c: the counting wrapper missed a transfer of 0 bytes).
 PROPS["C14"]["also_drivers"] = ["C10"]
+# C01: "pool buffers" are among the memory an in-flight operation has handed to the kernel; the
+# history driver of C01 has no buffer pools, C08's driver does (its oracle: the pool stays
+# registered and allocated while a request selecting from it is in flight; seed C01-d).
+PROPS["C01"]["also_drivers"] = ["C08"]
